@@ -15,9 +15,9 @@ SUT_WEIGHTS = [
     ("Discretizer", 18),
     ("QuantitativeDiscretizer", 6),
     ("QualitativeDiscretizer", 6),
-    ("ContinuousDiscretizer", 4),
-    ("CategoricalDiscretizer", 4),
-    ("OrdinalDiscretizer", 4),
+    ("ContinuousDiscretizer", 6),
+    ("CategoricalDiscretizer", 5),
+    ("OrdinalDiscretizer", 5),
     ("StringDiscretizer", 4),
     ("BaseDiscretizer", 9),
     ("ChainedDiscretizer", 5),
